@@ -29,6 +29,9 @@ def run(prog, tier):
     # the data section holds header.points x frames records only when every frame received the same columns
     import p_c06
     p_c06.column_rules(prog, res, rule='data-uniform')
+    # ... and only while no two stored frames share their points / analogs (a column added to one then lands in both)
+    import p_c08
+    p_c08.ownership_rules(prog, res, rule_prefix='data-uniform/ownership')
     # a CHAR cell is dimension[0] bytes wide: the setter must declare the longest stored string
     import p_c09
     p_c09.longest_string_rule(prog, res, 'cell-width/declared')
